@@ -32,6 +32,9 @@ def apply(F, S):
         init = c["fields"]
         # R1: parameter fields (initialiser mentions a ctor parameter, not a nested struct / buffer) are never stored to
         for fname, cl in cls.items():
+            if cl == "FOREIGN":
+                S.bad("R0", "helper-struct-field", "%s.%s" % (s, fname), "field %s.%s holds a crate type that is not an indicator: whether it is a parameter or state (and what reset() must do with it) is not decided here (UNRECOGNISED)" % (s, fname))
+        for fname, cl in cls.items():
             t = init.get(fname)
             if cl in ("PARAM", "STATE") and t is not None and fieldclass.mentions_param(t, c["params"]):
                 writers = [x for x in stores.get((s, fname), []) if not (x[3] == "new" and x[1] == "whole")]
